@@ -506,9 +506,24 @@ class ProgGen:
             k = r.range(1, 4)
             ety = INT(r.choice(INTS[:8]))
             if self.point("const"):
-                self.sab_desc = "array size is a mutable local"
-                s = "%s := %d; %s : [%s]%s = %s;" % (n, k, a, n, ty_str(ety), self._valid_of(("arr", k, ety)))
-                self.bind(n, INT("i32"), True)
+                shape = r.below(5)
+                arrv = self._valid_of(("arr", k, ety))
+                if shape == 0:
+                    self.sab_desc = "array size is a mutable local with a value"
+                    s = "%s := %d; %s : [%s]%s = %s;" % (n, k, a, n, ty_str(ety), arrv)
+                elif shape == 1:
+                    self.sab_desc = "array size is a mutable local WITHOUT a value"
+                    s = "%s : usize; %s : [%s]%s;" % (n, a, n, ty_str(ety))
+                elif shape == 2:
+                    self.sab_desc = "array size is arithmetic on a mutable local"
+                    s = "%s := %d; %s : [%s + 1]%s;" % (n, k, a, n, ty_str(ety))
+                elif shape == 3:
+                    self.sab_desc = "enum discriminant is a mutable local without a value"
+                    s = "%s : u8; %s :: enum { A | %s, B };" % (n, self.fresh("LE"), n)
+                else:
+                    self.sab_desc = "array size is a typed mutable local with a value"
+                    s = "%s : usize = %d; %s : [%s]%s = %s;" % (n, k, a, n, ty_str(ety), arrv)
+                self.bind(n, INT("usize"), True, locked=True)
                 return s
             s = "%s :: %d; %s : [%s]%s = %s;" % (n, k, a, n, ty_str(ety), self.lit(("arr", k, ety)))
             self.bind(a, ("arr", k, ety), True)
@@ -517,8 +532,11 @@ class ProgGen:
         v = self.fresh("c")
         ety = self.scalar_ty()
         if self.point("const"):
-            self.sab_desc = "type annotation names a mutable local holding a type"
-            return "%s := %s; %s : %s = %s;" % (t, ty_str(ety), v, t, self._valid_of(ety))
+            if r.chance(1, 2):
+                self.sab_desc = "type annotation names a mutable local holding a type"
+                return "%s := %s; %s : %s = %s;" % (t, ty_str(ety), v, t, self._valid_of(ety))
+            self.sab_desc = "type annotation names a mutable `type` local WITHOUT a value"
+            return "%s : type; %s : %s = %s;" % (t, v, t, self._valid_of(ety))
         s = "%s :: %s; %s : %s = %s;" % (t, ty_str(ety), v, t, self.expr(ety, depth + 1))
         self.bind(v, ety, True)
         return s
@@ -679,6 +697,74 @@ class ProgGen:
             body = body.replace("{\n", "{\n    core.println(\"start \", 42, \" \", true);\n", 1)
         out.append(body)
         return "".join(out)
+
+
+# ---- const positions x non-const operands ------------------------------------------------------
+# Every kind of operand that is NOT a compile-time constant, in every position that requires one.
+# Each program must be rejected with a diagnostic (and is then unsafe, nothing generated); the
+# controls with a constant operand must build.  C07 runs the whole matrix on every check.
+
+CONST_OPERANDS = [
+    # name, statements that introduce it inside the function, the expression, extra globals, is_const
+    ("const-local", "n :: 3;", "n", "", True),
+    ("const-global", "", "GN", "GN : usize : 3;\n", True),
+    ("literal", "", "3", "", True),
+    ("mut-local-with-value", "n := 3;", "n", "", False),
+    ("mut-local-typed-with-value", "n : usize = 3;", "n", "", False),
+    ("mut-local-without-value", "n : usize;", "n", "", False),
+    ("parameter", None, "p", "", False),                      # the enclosing function gets (p: usize)
+    ("call-result", "", "get_n()", "get_n :: () -> usize { 3 }\n", False),
+    ("global-from-call", "", "GC", "get_n :: () -> usize { 3 }\nGC :: get_n();\n", False),
+    ("arith-on-mut-local", "n := 3;", "n + 1", "", False),
+    ("arith-on-unset-local", "m : usize;", "m * 2", "", False),
+    ("arith-on-parameter", None, "p + 1", "", False),
+    ("deref-of-pointer", "n := 3; q :: ^n;", "q^", "", False),
+    ("field-of-mut-struct", "s := P.{ f = 3 };", "s.f", "P :: struct { f: usize };\n", False),
+    ("element-of-mut-array", "a := usize.[3, 4];", "a[0]", "", False),
+    ("if-on-mut-local", "n := 3;", "if n > 1 { 2 } else { 3 }", "", False),
+]
+# type-valued operands for the type-annotation position
+TYPE_OPERANDS = [
+    ("const-local-type", "T :: i32;", "T", "", True),
+    ("mut-local-type-with-value", "T := i32;", "T", "", False),
+    ("mut-local-type-without-value", "T : type;", "T", "", False),
+    ("parameter-type", None, "PT", "", False),                # the enclosing function gets (PT: type)
+    ("call-result-type", "", "get_t()", "get_t :: () -> type { i32 }\n", False),
+]
+CONST_POSITIONS = ("array-length", "enum-discriminant", "comptime-argument", "type-annotation",
+                   "array-length-in-literal", "distinct-of-array", "struct-member-array")
+
+
+def const_matrix():
+    """[(operand, position, operand_is_const, source)] -- deterministic, no randomness."""
+    out = []
+
+    def prog(stmts, use, globs, param):
+        if param is None:
+            return "%smain :: () {\n    %s\n    %s\n}\n" % (globs, stmts, use)
+        return "%swork :: (%s) {\n    %s\n}\nmain :: () {\n    work(%s);\n}\n" % (globs, param[0], use, param[1])
+    for name, stmts, e, globs, is_const in CONST_OPERANDS:
+        param = ("p: usize", "3") if stmts is None else None
+        st = stmts or ""
+        uses = {
+            "array-length": "arr : [%s]i32;" % e,
+            "enum-discriminant": "E :: enum { A | %s, B };\n    v : E = E.B;" % e,
+            "comptime-argument": "r := ident(%s);" % e,
+            "array-length-in-literal": "arr := [%s]i32.(i32.[1, 2, 3]);" % e,
+            "distinct-of-array": "D :: distinct [%s]u8;\n    d : D;" % e,
+            "struct-member-array": "S :: struct { m: [%s]u8 };\n    s0 : S;" % e,
+        }
+        for pos, use in uses.items():
+            g = globs + ("ident :: (comptime N: usize) -> usize { N }\n" if pos == "comptime-argument" else "")
+            out.append((name, pos, is_const, prog(st, use, g, param)))
+    for name, stmts, e, globs, is_const in TYPE_OPERANDS:
+        param = ("PT: type", "i32") if stmts is None else None
+        st = stmts or ""
+        out.append((name, "type-annotation", is_const, prog(st, "x : %s = 1;" % e, globs, param)))
+        g = globs + "ident_t :: (comptime X: type) -> type { X }\n"
+        out.append((name, "comptime-argument", is_const, prog(st, "y : ident_t(%s) = 1;" % e, g, param)))
+        out.append((name, "array-element-type", is_const, prog(st, "z : [2]%s;" % (e if e.isidentifier() else "(" + e + ")"), globs, param)))
+    return out
 
 
 def gen_valid(rng, size=3, with_core=False):
